@@ -59,7 +59,8 @@ for name in names:
         if baseline:
             bp = subprocess.run([os.path.join(HERE, "selftest", "baseline.py")], env=env, capture_output=True, text=True)
             print(f"{name}: baseline {'OK' if bp.returncode == 0 else 'BROKEN'} {bp.stdout.strip().splitlines()[0] if bp.stdout.strip() else ''}")
-        props = ["C04", "C09", "C18", "C19"] if allchecks else [meta["property"]]
+        # the check expected to catch it: normally the property the author tagged, sometimes a neighbouring one
+        props = ["C04", "C09", "C18", "C19"] if allchecks else [meta.get("caught_by", meta["property"])]
         for p in props:
             t0 = time.time()
             cmd = [os.path.join(HERE, "check"), p, "--tier", tier, "--no-evidence"]
